@@ -18,7 +18,7 @@ RULE = (
     "accounts for everything; non-trivial = stream with >= 1 complete but internally malformed unit; distinct by hash of (stream, cuts)"
 )
 ASSUMPTIONS = ["the framer (vf/ref/ber.frame_count) reads only outer identifier and length octets, per X.690 8.1"]
-CLASSES = ["valid", "overrun", "missing", "control", "random"]
+CLASSES = ["valid", "overrun", "missing", "control", "random", "unknown-op"]
 PAGED = "1.2.840.113556.1.4.319"
 
 
@@ -80,6 +80,17 @@ def g_unit(r, klass, kind_pool):
             ctl = (PAGED, False, r.randbytes(r.choice([1, 2, 6])), None)
         a2 = (a[0], a[1], a[2], (ctl,))
         return rfc4511.encode(a2)
+    if klass == "unknown-op":
+        # a well-formed LDAPMessage whose protocolOp is an RFC 4511 operation the library does not implement
+        # (modify 6/7, add 8/9, del 10/11, modDN 12/13, compare 14/15, abandon 16, intermediate 25) or an unassigned one
+        num = r.choice([6, 7, 8, 9, 10, 11, 12, 13, 14, 15, 16, 25, 26, 30, 77])
+        if num in (10, 16):
+            opn = ber.ident_octets(1, False, num) + b"\x01\x05"
+        else:
+            body = b"\x04\x04dc=x" + r.choice([b"", b"\x30\x00", b"\x0a\x01\x00\x04\x00\x04\x00"])
+            opn = ber.ident_octets(1, True, num) + ber.length_octets(len(body)) + body
+        env = b"\x02\x01" + bytes([r.randrange(1, 100)]) + opn
+        return b"\x30" + ber.length_octets(len(env)) + env
     if klass == "random":
         body = r.randbytes(r.choice([0, 1, 2, 5, 12, 40]))
         return b"\x30" + ber.length_octets(len(body)) + body
